@@ -2,9 +2,9 @@ SPECIFICATION Spec
 CONSTANTS
   MaxN = 3
   Steps = {1, 2}
-  Cfgs <- AllCfgs
+  Cfgs <- QuickCfgs
   WriteVals <- OneVal
   EmitOps <- NoEmit
 VIEW absvars
 INVARIANTS TypeOK Laws
-PROPERTIES PostfixReturnsOld ObserversPure OnlyWritesWrite ExtAgrees ResultsInRange
+PROPERTIES PostfixReturnsOld ObserversPure OnlyWritesWrite ExtAgrees ResultsInRange AlgoLaws ValueInitLaws
